@@ -201,8 +201,11 @@ Definition run_ops_at (fixed : bool) (n t ts : N) (ops : list op) : list out :=
   snd (run_from fixed (init_at n t ts) ops).
 
 (* ---- wire format ---- *)
-(* script: n t ts op*   with op = 1 time pay | 2 k | 3 | 4 | 5 | 6;
-   ts = 0 uses CQueue::new, ts > 0 uses CQueue::new_at *)
+(* script: n t ts u op*   with op = 1 time pay | 2 k | 3 | 4 | 5 | 6;
+   ts = 0 uses CQueue::new, ts > 0 uses CQueue::new_at.  Every time in the script
+   (ts and the time of an add) is given in units of u nanoseconds (u = 0 means 1),
+   and printed times are divided by u again: this lets scripts reach timestamps
+   far beyond 2^64 ns although every number on the wire stays below 2^62. *)
 Definition dec_op (l : list N) : option (op * list N) :=
   match l with
   | 1 :: t :: p :: r => Some (Add t p, r)
@@ -212,6 +215,17 @@ Definition dec_op (l : list N) : option (op * list N) :=
   | 5 :: r => Some (Time, r)
   | 6 :: r => Some (Peek, r)
   | _ => None
+  end.
+
+Definition scale_op (u : N) (o : op) : op :=
+  match o with Add t p => Add (t * u) p | _ => o end.
+
+Definition unscale_out (u : N) (o : out) : out :=
+  match o with
+  | OFetched p t => OFetched p (t / u)
+  | OTime t => OTime (t / u)
+  | OPeek (Some t) => OPeek (Some (t / u))
+  | _ => o
   end.
 
 Definition enc_out (o : out) : list N :=
@@ -227,11 +241,15 @@ Definition enc_out (o : out) : list N :=
   | OOutOfFuel => [8]
   end.
 
+Definition unit_of (u : N) : N := if u =? 0 then 1 else u.
+
 Definition run (input : list N) : list N :=
   match input with
-  | n :: t :: ts :: r =>
+  | n :: t :: ts :: u0 :: r =>
+      let u := unit_of u0 in
+      let ops := map (scale_op u) (decode_all dec_op r) in
       if (n =? 0) || (t =? 0) then [7]
-      else if ts =? 0 then flat_map enc_out (run_ops true n t (decode_all dec_op r))
-      else flat_map enc_out (run_ops_at true n t ts (decode_all dec_op r))
+      else if ts =? 0 then flat_map enc_out (map (unscale_out u) (run_ops true n t ops))
+      else flat_map enc_out (map (unscale_out u) (run_ops_at true n t (ts * u) ops))
   | _ => [7]
   end.
